@@ -9,7 +9,8 @@ trap "git -C /repo worktree remove --force $wt >/dev/null 2>&1; git -C /repo wor
 cp /repo/src/quantity/version.py $wt/src/quantity/version.py 2>/dev/null
 cd $wt
 PYTHONPATH=$wt/src /venv/bin/python $dir/demo.py >/dev/null 2>&1; base=$?
-git apply $dir/patch.diff || { echo "PATCH-DOES-NOT-APPLY"; exit 2; }
+git apply $dir/patch.diff 2>/dev/null || git apply -3 $dir/patch.diff >/dev/null 2>&1 || { echo "PATCH-DOES-NOT-APPLY"; exit 2; }
+grep -rl "^<<<<<<<" src >/dev/null 2>&1 && { echo "PATCH-CONFLICTS"; exit 2; }
 PYTHONPATH=$wt/src /venv/bin/python $dir/demo.py >/dev/null 2>&1; mut=$?
 suite=$(PYTHONPATH=$wt/src /venv/bin/python -m pytest -q -p no:cacheprovider -x 2>&1 | tail -1)
 echo "demo: pristine rc=$base, changed rc=$mut; suite with change: $suite"
